@@ -1,17 +1,18 @@
 #!/bin/sh
 # usage: tools/confirm_seeded.sh <worktree>  -- confirm a seeded change: suite green with it, demo fails with it, demo passes without it
 WT="$1"
+TAG="$(basename "$WT")"
 cd "$WT" || exit 2
 export CARGO_NET_OFFLINE=true
 git diff --quiet -- . ':!patch.diff' && { echo "no change applied in worktree"; }
-git diff -- logos-codegen src logos-derive logos-cli > /tmp/confirm_patch.diff
+git diff -- logos-codegen src logos-derive logos-cli > /tmp/confirm_$TAG.diff
 echo "--- demo WITH change (expect failure)"
-cargo test -p tests --test seeded_demo --offline > /tmp/confirm_demo_with.out 2>&1; echo "exit=$?  $(grep -E '^test result' /tmp/confirm_demo_with.out | tail -1)"
+cargo test -p tests --test seeded_demo --offline > /tmp/confirm_${TAG}_with.out 2>&1; echo "exit=$?  $(grep -E '^test result' /tmp/confirm_${TAG}_with.out | tail -1)"
 echo "--- suite WITH change, demo moved aside (expect pass)"
-mv tests/tests/seeded_demo.rs /tmp/seeded_demo.rs.aside
-cargo test --workspace --no-fail-fast --offline > /tmp/confirm_suite.out 2>&1; echo "exit=$?  failed targets: $(grep -c 'test result: FAILED' /tmp/confirm_suite.out)  passed tests: $(grep -E '^test result: ok' /tmp/confirm_suite.out | awk '{s+=$4} END {print s}')"
-mv /tmp/seeded_demo.rs.aside tests/tests/seeded_demo.rs
+mv tests/tests/seeded_demo.rs /tmp/seeded_demo_$TAG.rs.aside
+cargo test --workspace --no-fail-fast --offline > /tmp/confirm_${TAG}_suite.out 2>&1; echo "exit=$?  failed targets: $(grep -c 'test result: FAILED' /tmp/confirm_${TAG}_suite.out)  passed tests: $(grep -E '^test result: ok' /tmp/confirm_${TAG}_suite.out | awk '{s+=$4} END {print s}')"
+mv /tmp/seeded_demo_$TAG.rs.aside tests/tests/seeded_demo.rs
 echo "--- demo WITHOUT change (expect pass)"
-git apply -R /tmp/confirm_patch.diff
-cargo test -p tests --test seeded_demo --offline > /tmp/confirm_demo_without.out 2>&1; echo "exit=$?  $(grep -E '^test result' /tmp/confirm_demo_without.out | tail -1)"
-git apply /tmp/confirm_patch.diff
+git apply -R /tmp/confirm_$TAG.diff
+cargo test -p tests --test seeded_demo --offline > /tmp/confirm_${TAG}_without.out 2>&1; echo "exit=$?  $(grep -E '^test result' /tmp/confirm_${TAG}_without.out | tail -1)"
+git apply /tmp/confirm_$TAG.diff
